@@ -21,3 +21,8 @@ def use_repo():
 def converter():
     use_repo()
     return importlib.import_module("pyscsi.utils.converter")
+
+
+def mod(name):
+    use_repo()
+    return importlib.import_module(name)
